@@ -49,7 +49,7 @@ m(["C03"], "not-arms-swapped", "src/solution_node.rs",
 m(["C03"], "not-returns-child-set", "src/solution_node.rs",
   "                            match solution {\n                                Some(_) => return None,\n                                None => {\n                                    return Some(Rc::clone(&sn_ref.ss));",
   "                            match solution {\n                                Some(_) => return None,\n                                None => {\n                                    return Some(Rc::clone(&head_sn.borrow().ss));", "R2/not-result-set")
-m(["C03", "C05"], "not-flag-cleared-late", "src/solution_node.rs",
+m(["C05"], "not-flag-cleared-late", "src/solution_node.rs",
   "                    if !sn_ref.more_solutions { return None; };\n                    sn_ref.more_solutions = false;\n\n                    match &sn_ref.head_sn {\n                        Some(head_sn) => {\n                            let solution = next_solution(Rc::clone(&head_sn));\n                            match solution {\n                                Some(_) => return None,\n                                None => {",
   "                    if !sn_ref.more_solutions { return None; };\n\n                    match &sn_ref.head_sn {\n                        Some(head_sn) => {\n                            let solution = next_solution(Rc::clone(&head_sn));\n                            match solution {\n                                Some(_) => return None,\n                                None => {\n                                    sn_ref.more_solutions = false;", "R5/none-is-final(entry)")
 m(["C03"], "not-node-empty-set", "src/goal.rs",
@@ -118,7 +118,7 @@ m(["C18"], "unwrap-on-parse", "src/s_linked_list.rs",
 m(["C18"], "loop-never-advances", "src/infix.rs", "        prev = c1;\n        i += 1;\n\n    } // while\n\n    return (Infix::None, 0);  // failed to find infix\n\n} // check_infix", "        prev = c1;\n        if c1 != '\\u{0}' { i += 1; }\n\n    } // while\n\n    return (Infix::None, 0);  // failed to find infix\n\n} // check_infix", "L")
 # ---------------- globals / timer / unsafe (C22-C24) ----------------
 m(["C22"], "constructor-keeps-flag", "src/s_complex.rs", "    start_query();  // Reset LOGIC_VAR_ID and SUIRON_STOP_QUERY.", "    clear_id();  // Reset LOGIC_VAR_ID.", "R2/reset(SUIRON_STOP_QUERY)")
-m(["C22", "C24"], "static-cache-in-count-rules", "src/knowledge_base.rs",
+m(["C22"], "static-cache-in-count-rules", "src/knowledge_base.rs",
   "pub fn count_rules(kb: &KnowledgeBase, predicate_name: &str) -> usize {\n\n    if query_stopped() { return 0; }\n",
   "static mut LAST_COUNT: usize = 0;\npub fn count_rules(kb: &KnowledgeBase, predicate_name: &str) -> usize {\n\n    if query_stopped() { return unsafe { LAST_COUNT }.min(0); }\n    unsafe { LAST_COUNT += 1; }\n", "R2/reset(LAST_COUNT)")
 m(["C23"], "cancel-missing-on-timeout-path", "src/solutions.rs",
